@@ -326,6 +326,13 @@ Completed(e) ==
   /\ e.op = "completed"
   /\ UNCHANGED vars
 
+\* --- the pipeline emitted a string for a molecule the projection cannot state (e.g. a reader produced a non-integer mass):
+\* the string is judged on its own
+Emitted(e) ==
+  /\ e.op = "emitted"
+  /\ viol' = viol \cup (IF IsSentence(e.s) THEN {} ELSE {"C05:not-a-sentence"})
+  /\ UNCHANGED <<objs, cls, root, prov, strOf, canonOf, rootPart, sers, strs, mols, results>>
+
 \* --- graph_from_tucan(s) -> ret | exception
 ParseClauses(e, D) ==
   IF D.acc THEN
@@ -508,7 +515,7 @@ WriteText(e) ==
   /\ UNCHANGED <<objs, cls, root, prov, strOf, canonOf, rootPart, sers, strs, mols, results>>
 
 Step(e) == \/ Input(e) \/ Derive(e) \/ Mutate(e) \/ Touch(e) \/ SameMol(e) \/ Canonicalize(e) \/ Automorphism(e) \/ Serialize(e)
-           \/ Raised(e) \/ Completed(e) \/ Parse(e) \/ ReadText(e) \/ SameText(e) \/ WriteText(e) \/ StringIn(e) \/ Respell(e) \/ Result(e) \/ Permute(e)
+           \/ Raised(e) \/ Completed(e) \/ Emitted(e) \/ Parse(e) \/ ReadText(e) \/ SameText(e) \/ WriteText(e) \/ StringIn(e) \/ Respell(e) \/ Result(e) \/ Permute(e)
 
 \* ------------------------------------------------------------------ the properties, as state predicates
 Clean(prefix) == \A c \in viol : SubSeq(c, 1, Len(prefix)) # prefix
